@@ -1,5 +1,5 @@
 #![recursion_limit = "4096"]
-#![allow(unused_parens)]
+#![allow(unused_parens, unused_braces)]
 //! C15: print fingerprints of the registry built from a fixed corpus in a fixed order.
 /// the hand-written TypeInfo impls of the harness library, compiled into this crate directly
 #[allow(dead_code)]
